@@ -36,8 +36,9 @@ def kw(w):
 def _templates() -> List[dict]:
     T = []
 
-    def add(name, parts):
-        T.append({"name": name, "parts": parts, "n": sum(1 for p in parts if isinstance(p, tuple))})
+    def add(name, parts, model="Item", backends=None):
+        T.append({"name": name, "parts": parts, "n": sum(1 for p in parts if isinstance(p, tuple)), "model": model,
+                  "backends": backends})
 
     add("bool-ops", ["n", kw(" gt "), "1", kw(" and "), kw("not "), "(m", kw(" le "), "2", kw(" or "), "flag", kw(" eq "), kw("true"), ")"])
     add("null-in", ["name", kw(" ne "), kw("null"), kw(" and "), "n", kw(" in "), "(1, 2)"])
@@ -52,6 +53,14 @@ def _templates() -> List[dict]:
     add("datetime-frac-offset", ["name", kw(" ge "), "2020-02-29", kw("T"), "23:59:58.123456789+05:30"])
     add("function-bool", ["contains(name, 'a')", kw(" eq "), kw("true"), kw(" and "), "startswith(title, 'b')"])
     add("time-date", ["name", kw(" eq "), "10:30:00", kw(" or "), "title", kw(" eq "), "2020-01-31"])
+    # collection lambdas (relationship models; the ORM backends only - the text dialects and Core have no lambdas)
+    orm = ("django", "sa_orm")
+    add("lambda-all-bool", ["children/", kw("all"), "(c: contains(c/label, 'a')", kw(" eq "), kw("true"), ")"], "Parent", orm)
+    add("lambda-any-null", ["children/", kw("any"), "(c: c/k", kw(" gt "), "1", kw(" or "), "c/label", kw(" ne "), kw("null"), ")"], "Parent", orm)
+    add("lambda-not-all-false", [kw("not "), "tags/", kw("all"), "(t: t/t", kw(" eq "), "'a'", kw(" and "), kw("false"), kw(" ne "),
+                                 "endswith(t/t, 'b'))"], "Parent", orm)
+    add("lambda-all-ne-true", ["n", kw(" lt "), "3", kw(" and "), "owned/", kw("all"), "(o: startswith(o/label, 'x')", kw(" ne "), kw("true"), ")"],
+        "Parent", orm)
     return T
 
 
@@ -79,10 +88,25 @@ def _norm_sql(sql: str) -> tuple:
     return tuple((k, t if k in ("str", "qid") else t.lower()) for k, t in sqllex.scan(sql))
 
 
-def translate(bi: int, text: str):
+def _dj_sql(model, tree) -> tuple:
+    v = c08.DJ["Visitor"](model)
+    q = v.visit(tree)
+    qs = model.objects.all()
+    if v.queryset_annotations:
+        qs = qs.annotate(**v.queryset_annotations)
+    return qs.filter(q).query.sql_with_params()
+
+
+def translate(bi: int, text: str, model: str = "Item"):
     tree = ODataParser().parse(_LEX.tokenize(text))
     b = BACKENDS[bi]
     try:
+        if model != "Item":
+            if b == "django":
+                sql, params = _dj_sql(MODELS["django"][model], tree)
+                return ("ok", sql, tuple(params))
+            sig, binds, _ = c08.clause_profile(c08.SA["Orm"](MODELS["sa"][model]).visit(tree))
+            return ("ok", tuple(sig), tuple(binds))
         if b == "sql":
             return ("ok", _norm_sql(AstToSqlVisitor().visit(tree)))
         if b == "sqlite":
@@ -103,20 +127,29 @@ def translate(bi: int, text: str):
 def canon(ti: int, bi: int):
     key = (ti, bi)
     if key not in CANON:
-        CANON[key] = translate(bi, render(ti, 0))
+        CANON[key] = translate(bi, render(ti, 0), TEMPLATES[ti]["model"])
     return CANON[key]
 
 
 def check(ti: int, bi: int, mask: int) -> bool:
-    return translate(bi, render(ti, mask)) == canon(ti, bi)
+    return translate(bi, render(ti, mask), TEMPLATES[ti]["model"]) == canon(ti, bi)
+
+
+MODELS: Dict[str, Any] = {}
 
 
 def prepare() -> None:
     c08.prepare("quick", 0)
+    from ..models import setup as msetup
+    from ..models import sa as samodels
+    dj = msetup.django_setup()
+    MODELS["django"] = {"Parent": dj.Parent}
+    MODELS["sa"] = {"Parent": samodels.Parent}
     TEMPLATES[:] = _templates()
-    for ti in range(len(TEMPLATES)):
-        for bi in range(len(BACKENDS)):
-            canon(ti, bi)
+    for ti, t in enumerate(TEMPLATES):
+        for bi, b in enumerate(BACKENDS):
+            if t["backends"] is None or b in t["backends"]:
+                canon(ti, bi)
 
 
 def backend_layer(run: Run, progress: bool = False) -> None:
@@ -128,9 +161,24 @@ def backend_layer(run: Run, progress: bool = False) -> None:
     items: List[Item] = []
     for ti, t in enumerate(TEMPLATES):
         for bi, b in enumerate(BACKENDS):
+            if t["backends"] is not None and b not in t["backends"]:
+                continue
             if quick and (ti + bi + run.seed) % 2 and b == "sa_core":
                 continue     # quick: Core alternates (it shares every visitor method with the ORM visitor)
             n = t["n"]
+            if t["model"] != "Item" and b == "sa_orm":
+                # SQLAlchemy's relationship comparators (.any() / .has()) do not execute under CrossHair's tracer: every
+                # spelling of these templates is enumerated concretely instead (2^n <= 64 texts), labelled as such
+                badm = [m for m in range(2 ** n) if not check(ti, bi, m)]
+                oname = f"be_{t['name']}_{b}:all {2 ** n} case assignments of {render(ti, 0)!r}"
+                if badm:
+                    text = render(ti, badm[0])
+                    run.violation(oname, {"call": f"check({ti}, {bi}, {badm[0]})", "args": [], "harness": "backends-concrete", "text": text,
+                                          "canonical": render(ti, 0)},
+                                  f"{b}: {text!r} translates differently from {render(ti, 0)!r}", "backends:" + b + "(concrete enumeration)")
+                else:
+                    run.discharged(oname, "backends:" + b + "(concrete enumeration)", nontrivial=False)
+                continue
             cap = min(n, (7 if b in ("sql", "sqlite", "athena") else 5) if quick else 12)
             items.append(Item(f"be_{t['name'].replace('-', '_')}_{b}", "mask: int", f"0 <= mask < {2 ** cap}",
                               f"check({ti}, {bi}, mask)", describe={"template": render(ti, 0), "backend": b, "keywords": n},
@@ -140,7 +188,7 @@ def backend_layer(run: Run, progress: bool = False) -> None:
         ti = [t["name"].replace("-", "_") for t in TEMPLATES].index(it.name[3:].rsplit("_" + it.describe["backend"], 1)[0])
         bi = BACKENDS.index(it.describe["backend"])
         text = render(ti, args[0])
-        return (f"{it.describe['backend']}: {text!r} -> {translate(bi, text)!r}; canonical {render(ti, 0)!r} -> {canon(ti, bi)!r}")[:600]
+        return (f"{it.describe['backend']}: {text!r} -> {translate(bi, text, TEMPLATES[ti]['model'])!r}; canonical {render(ti, 0)!r} -> {canon(ti, bi)!r}")[:600]
 
     header = "from verif.props.c19_backends import check\n"
     run_items(run, header, items, per_condition_timeout=90 if quick else 300, what=what, progress=progress)
